@@ -2,7 +2,11 @@
 reaching definitions -> origin (expression) trees, alias resolution and
 per-object event lists.  Pure functions of one `facts.Fn`; no source text.
 """
+import sys
+
 from facts import Callee, Fn, Operand, Place
+
+sys.setrecursionlimit(20000)
 
 # --------------------------------------------------------------------- CFG
 
@@ -369,8 +373,10 @@ class Analysis:
         if key in self._expr_cache:
             return self._expr_cache[key]
         visiting = visiting or set()
-        if key in visiting or depth > 60:
+        if key in visiting:
             return E("loop", local)
+        if depth > 400:
+            return E("toodeep", local)
         visiting = visiting | {key}
         rds = self.reaching_defs(local, bb, idx)
         alts = []
@@ -492,6 +498,20 @@ class Analysis:
                             res = self.resolve_ref(p.local, depth + 1)
                     elif rv.kind == "cast" and rv.ops[0].kind in ("copy", "move") and rv.ops[0].place.is_local():
                         res = self.resolve_ref(rv.ops[0].place.local, depth + 1)
+                elif getattr(node, "callee", None) is not None and node.args:
+                    # references derived from a reference argument point into it
+                    c = node.callee
+                    derived = None
+                    if c.trait in ("std::ops::Index", "std::ops::IndexMut"):
+                        derived = "[]"
+                    elif c.trait in ("std::ops::Deref", "std::ops::DerefMut", "std::convert::AsRef", "std::convert::AsMut", "std::borrow::Borrow", "std::borrow::BorrowMut"):
+                        derived = ""
+                    elif c.name in ("as_slice", "as_mut_slice", "as_mut", "as_bytes") and c.krate in ("core", "alloc", "std", "bytes"):
+                        derived = ""
+                    if derived is not None and node.args[0].kind in ("copy", "move") and node.args[0].place.is_local():
+                        base = self.resolve_ref(node.args[0].place.local, depth + 1)
+                        if base is not None:
+                            res = (base[0], list(base[1]) + ([derived] if derived else []), base[2])
         self._alias_cache[local] = res
         return res
 
@@ -734,3 +754,14 @@ def callee_is(e, *names, trait=None, krate=None):
     if krate and c.krate != krate:
         return False
     return True
+
+
+def same_value(e1, e2):
+    """do two origin trees denote the same computed value?  Structural
+    equality, and call results must come from the same call site."""
+    a, b = strip(e1), strip(e2)
+    if repr(a) != repr(b):
+        return False
+    ca = [(c.site, c.a[0].full) for c in a.walk() if c.k == "call"]
+    cb = [(c.site, c.a[0].full) for c in b.walk() if c.k == "call"]
+    return ca == cb
